@@ -20,13 +20,13 @@ pub fn req_to(r: &ObservableHttpRequest) -> Value {
            "referer": r.referer, "ua": r.user_agent, "lang": r.lang,
            "obs": {"ver": hver_to(&r.matching.version), "horder": r.matching.horder.iter().map(header_to).collect::<Vec<_>>(),
                    "habsent": r.matching.habsent.iter().map(header_to).collect::<Vec<_>>(), "sw": r.matching.expsw},
-           "text": r.matching.to_string()})
+           "text": r.matching.to_string(), "sigtext": r.to_string()})
 }
 pub fn resp_to(r: &ObservableHttpResponse) -> Value {
     json!({"status": r.status_code, "headers": hdrs(&r.headers),
            "obs": {"ver": hver_to(&r.matching.version), "horder": r.matching.horder.iter().map(header_to).collect::<Vec<_>>(),
                    "habsent": r.matching.habsent.iter().map(header_to).collect::<Vec<_>>(), "sw": r.matching.expsw},
-           "text": r.matching.to_string()})
+           "text": r.matching.to_string(), "sigtext": r.to_string()})
 }
 fn blob(v: &Value) -> Vec<u8> {
     if v.is_string() {
